@@ -5,7 +5,7 @@ kawin/precipitation/PopulationBalance.py:
   changeSizeClasses 347-384, addSizeClasses 386-400, adjustSizeClassesEuler 402-444,
   UpdatePBMEuler 628-641, the `...FromN` moment functions 643-721,
   PSD recording: enableRecording 94-107, record 148-161, saveRecordedPSD/loadRecordedPSD 163-191,
-  _grabPSDfromIndex 193-213, setPSDtoRecordedTime 215-279.
+  _grabPSDfromIndex 193-216, setPSDtoRecordedTime 218-282.
 Core Lean only; generic scalar (Float in the driver, an ordered field in the theorems).
 
 Arrays are `List α` so that lengths are part of the state.  An operation that raises in
@@ -16,7 +16,9 @@ not modelled; the harness never produces that combination.)
 The model follows the code AFTER the repairs recorded in /verif/known_findings.txt:
   * reset() initialises the backup grid to the current grid (was: all zeros), so `revert`
     before any `createBackup` gives a consistent empty grid;
-  * CumulativeWeightedMomentFromN uses its argument N (was: self.PSD).
+  * CumulativeWeightedMomentFromN uses its argument N (was: self.PSD);
+  * _grabPSDfromIndex takes the recorded boundaries up to the LAST non-zero one (was: as many as there
+    are non-zero entries, which dropped the last class of a record whose grid starts at R = 0).
 -/
 import KawinV.Scalar
 import KawinV.Model.PBMTransport
@@ -242,18 +244,29 @@ structure Grab (α : Type) where
   mn : α
   mx : α
 
-/-- `len(np.nonzero(row)[0])` -/
+/-- `len(np.nonzero(row)[0])`: the NUMBER of non-zero entries.  This is what `_grabPSDfromIndex` used as
+the record length before repair a549be2 (kept for `grabOld` and the witness theorems). -/
 def nonzeroCount (r : List α) : Nat := (r.filter (fun x => decide (x < 0 ∨ 0 < x))).length
+
+/-- `nz = np.nonzero(row)[0]; 0 if len(nz) == 0 else nz[-1] + 1`: position of the LAST non-zero entry
++ 1, 0 for an all-zero row — the number of recorded class boundaries of a zero-padded record row
+(repaired `_grabPSDfromIndex`, a549be2) -/
+def recordedCount : List α → Nat
+  | [] => 0
+  | x :: xs =>
+    match recordedCount xs with
+    | 0 => if x < 0 ∨ 0 < x then 1 else 0
+    | k + 1 => k + 2
 
 /-- `np.amin` -/
 def minList : List α → α
   | [] => 0
   | x :: xs => xs.foldl (fun a b => if b < a then b else a) x
 
-/-- `_grabPSDfromIndex` (193-213) on one recorded row pair: the non-zero COUNT of the boundary row
-decides how many entries are taken; an all-zero row stands for the original empty grid -/
-def grab (s : State α) (rb rp : List α) : Grab α :=
-  let nz := nonzeroCount rb
+/-- body of `_grabPSDfromIndex` (193-216) on one recorded row pair once the number `nz` of recorded
+boundaries is known: that many boundaries and `nz - 1` populations are taken; `nz = 0` (an all-zero
+row, the first record of `enableRecording`) stands for the original empty grid -/
+def grabWith (s : State α) (rb rp : List α) (nz : Nat) : Grab α :=
   if nz = 0 then
     let b := linspace s.origMin s.origMax s.origBins
     { bounds := b, psd := zeros s.origBins, size := midpoints b, bins := s.origBins, mn := minList b, mx := maxList b }
@@ -261,6 +274,14 @@ def grab (s : State α) (rb rp : List α) : Grab α :=
     let b := rb.take nz
     let p := rp.take (nz - 1)
     { bounds := b, psd := p, size := midpoints b, bins := p.length, mn := minList b, mx := maxList b }
+
+/-- `_grabPSDfromIndex` (repaired, a549be2): the boundaries up to the LAST non-zero one are the record
+(rows are zero padded at the end; a grid that starts at R = 0 keeps its first boundary) -/
+def grab (s : State α) (rb rp : List α) : Grab α := grabWith s rb rp (recordedCount rb)
+
+/-- `_grabPSDfromIndex` BEFORE the repair: the non-zero COUNT of the boundary row decided how many
+entries were taken (a zero first boundary is not counted: the last class of the record is lost) -/
+def grabOld (s : State α) (rb rp : List α) : Grab α := grabWith s rb rp (nonzeroCount rb)
 
 /-- `np.interp(x, xp, fp, left=0, right=0)` -/
 def interp0 (xp fp : List α) (x : α) : α :=
